@@ -47,7 +47,10 @@ CHECKS = {
              'body / uid body / hashed area symbolic) and proved equal to the RFC 4880 5.2.4 layout; injectivity of that layout is proved by '
              'peeling lemmas; the per-algorithm verify glue (RSA/DSA/ECDSA/EdDSA: what reaches the external verifier, verdict mapping), '
              'PubKeyV4.verify and the verdict block of PGPKey.verify are proved with callee contracts; signature collection for message, user id '
-             'and key subjects: examined iff issued by this key or a subkey, once each, with its own subject, never an empty (truthy) result. '
+             'and key subjects: examined iff issued by this key or a subkey, once each, with its own subject, never an empty (truthy) result; the truthy '
+             'NotImplemented sentinel of key material without a signature scheme is never a verdict; a second verification of the same key, signature and '
+             'subject objects consults the crypto check again; hashdata asked again about a subject object that changed yields its present content; '
+             'PGPUID.hashdata (also the empty user id). '
              'The property follows under the named cryptographic hypothesis (EUF-CMA, collision resistance), which is not proved.',
         note=TB + '; cryptography/hashlib are uninterpreted externals; a bounded native bit-flip/substitution complement is listed under bounded_components',
         technique='contract-based deductive verification: VCs from the Python AST against RFC 4880 5.2.4 spec terms, callee contracts as hooks, '
@@ -82,7 +85,7 @@ CHECKS = {
              'iterated+salted, fresh IV (block size) and salt (8) from the randomness stream, plaintext = secret MPIs || SHA-1, secret fields '
              'wiped; decrypt_keyblob: accepts iff the SHA-1 trailer / 16-bit checksum matches, per-algorithm variants assign nothing on failure '
              'and recover the MPIs in order; clear() zeroes exactly the secret fields; protected material serialises to public MPIs || S2K || '
-             'ciphertext only (non-interference); four configurations of the passphrase-to-key derivation (text / octets, second call after re-salting).',
+             'ciphertext only (non-interference); clear() after a private operation leaves nothing in the material that depends on a secret integer; four configurations of the passphrase-to-key derivation (text / octets, second call after re-salting).',
         note=TB + '; ciphers, SHA-1, os.urandom are externals (uninterpreted / ghost stream); derive_key and MPI decoding are used through their '
                   'contracts (C12, C09); operation interleavings are a bounded component',
         technique='contract-based deductive verification: VCs from the Python AST, context-manager exits enumerated symbolically, callee '
@@ -140,7 +143,9 @@ CHECKS = {
         text='PrivKeyV4.pubkey is executed for RSA/DSA/ElGamal/ECDSA/EdDSA/ECDH (primary and subkey): result is the public packet class with the public '
              'material class, exactly the public fields (+ curve, KDF) copied, no other field present and no secret symbol flowing into it (non-interference '
              'on the symbolic heap); protected/unprotected secret material serialisation shape (C18); KeyAction.check_attributes refuses exactly when a '
-             'condition (is_public / is_unlocked) is not met; export filter of PGPKey.__bytearray__. Whole-key assembly and API refusals: bounded component.',
+             'condition (is_public / is_unlocked) is not met; export filter of PGPKey.__bytearray__; the KDF parameters of an ECDH twin are those of the key; for an '
+             'unimplemented algorithm no octet of the raw secret material reaches the twin; PGPKey.pubkey assembly. Whole-key assembly, API refusals and '
+             'foreign secret blobs with uninterpretable packets: bounded component.',
         note=TB,
         technique='contract-based deductive verification with syntactic non-interference on the symbolic heap; bounded component over key shapes',
         design_ref='6 (C07)'),
@@ -192,7 +197,8 @@ CHECKS = {
              'stable (0..3 elements, symbolic keys); PGPKey.__or__ / PGPUID.__or__ attachment rules, __copy__ of keys and identities; the import '
              'pipeline PGPKey.parse (itertools.groupby with its stateful grouping object) executed from the real source for nine packet shapes '
              '(signatures to the component before them, identities and subkeys to the most recent primary key, trust / unknown packets dropped, '
-             'several keys separated). Other shapes, real key material and export/import round trips: bounded component.',
+             'several keys separated); a second export of the same key object after a subkey changed exports the present components. Other shapes, real key '
+             'material, export/import round trips and keys observed after every operation: bounded component.',
         note=TB,
         technique='contract-based deductive verification (bounded shapes, symbolic contents); bounded import/export component with an independent splitter',
         design_ref='6 (C14)'),
@@ -212,7 +218,9 @@ CHECKS = {
              'exactly when a condition fails; _get_key_flags: subkey flags of the most recent binding signature, primary Certify + identity self-signature; '
              'the KeyAction wrapper (no key material -> refusal; the no-identity gate exempts only the first self-certification; conditions checked on '
              'the key and on the chosen component before the action runs); verify delegates only to the named subkey; sign/encrypt name the component '
-             'that acts and decrypt picks the packet naming its id and algorithm (C02/C03/C04 scenarios). Flag-assignment product: bounded component.',
+             'that acts and decrypt picks the packet naming its id and algorithm (C02/C03/C04 scenarios); _get_key_flags asked again after a more recent '
+             'self-signature follows it; PGPKey.unlock / PrivKeyV4.protect (what locked means after every exit). Flag-assignment product and '
+             'recertification histories: bounded component.',
         note=TB + '; component list unrolled for primary + 2 subkeys',
         technique='contract-based deductive verification with symbolic flag sets; bounded enumeration of flag assignments',
         design_ref='6 (C16)'),
